@@ -2,3 +2,4 @@ pub mod ast;
 pub mod build;
 pub mod exprgen;
 pub mod trivia;
+pub mod binding;
